@@ -65,6 +65,9 @@ class _:
             ("alloc-grows", n.alloc >= o.alloc),
         ]
 
+    # Scaffold(name) without rows starts from a new empty list
+    zero_based = staticmethod(lambda o, n, res: [(o.rows.is_none, n.self.rows)])
+
 
 @contract(f"{M}.add_row", properties=("C05", "C04", "C07"))
 class _:
@@ -73,7 +76,7 @@ class _:
 
     @staticmethod
     def modifies(o):
-        return [("list", ROW, o.self.rows)]
+        return [("list-append", ROW, o.self.rows)]
 
     @staticmethod
     def ensures(o, n, res):
